@@ -39,6 +39,19 @@ Theorem stored_err_returned_unchanged : forall a v,
 Proof. exact stored_err_lemma. Qed.
 Print Assumptions stored_err_returned_unchanged.
 
+(* JSONScan: a stored Err comes back unchanged (an instance of the theorem above); otherwise it unmarshals
+   exactly the bytes AsBytes yields and fails exactly when AsBytes fails (json.Unmarshal itself is opaque) *)
+Theorem jsonscan_goes_through_asbytes : forall av,
+  access_now AJsonScan av =
+  match access_now (AAs AsBytes) av with
+  | Ok (RBytes b) => Ok (RJsonScan b)
+  | Ok _ => Err EOther
+  | Err e => Err e
+  | Panic => Panic
+  end.
+Proof. exact jsonscan_lemma. Qed.
+Print Assumptions jsonscan_goes_through_asbytes.
+
 Theorem ordefault_iff_strict_fails : forall t d av,
   access_now (AOrDef t d) av =
   match access_now (AExact t) av with Ok r => Ok r | _ => Ok d end.
